@@ -36,12 +36,21 @@ def _as_keywords(fn, a, kw):
     return a[:keep], dict(kw, **extra)
 
 
+def fresh_strings(a):
+    """the same arguments with every option-like string replaced by an equal string that is a different object (a mode name that
+    came from a config file, JSON or argv is equal to the library's constant but not identical to it)"""
+    return tuple((x + "_")[:-1] if isinstance(x, str) and 1 < len(x) <= 24 else x for x in a)
+
+
 def call(fn, *a, **kw):
     """Drive a real call; the monitors judge it, the driver does not care.  Every ninth call passes its trailing arguments by
-    keyword instead of by position; every eleventh passes whole-number float arguments as int."""
+    keyword instead of by position; every eleventh passes whole-number float arguments as int, every thirteenth passes its
+    short string arguments as equal-but-not-identical objects."""
     _calls[0] += 1
     if _calls[0] % 9 == 0 and a:
         a, kw = _as_keywords(fn, a, kw)
+    elif _calls[0] % 13 == 0 and a:
+        a = fresh_strings(a)
     elif _calls[0] % 11 == 0 and a:
         # whole-number times given as int rather than float (a caller writing crop(1, 2) instead of crop(1.0, 2.0))
         a = tuple(int(x) if type(x) is float and x == int(x) and abs(x) < 1e9 else x for x in a)
@@ -98,8 +107,9 @@ def make_tier(kind, name, ents, lo, hi):
     return (IntervalTier if kind == "I" else PointTier)(name, ents, lo, hi)
 
 
-def rand_tier(rng, name="d", hi=5.0, nmax=7, pkind=0.25, labels=None, src=None, full_span=False):
-    """(kind, entries, lo, hi, tier) on decimals."""
+def rand_tier(rng, name="d", hi=5.0, nmax=7, pkind=0.25, labels=None, src=None, full_span=False, neg=0.0):
+    """(kind, entries, lo, hi, tier) on decimals; with probability *neg* the whole tier is moved to the left so that its span starts
+    below zero (Praat allows negative times; praatio only clips at zero when time-shifting)."""
     if rng.random() >= pkind:
         kind = "I"
         ents = gen.rand_interval_entries(rng, nmax, hi, labels=labels, src=src)
@@ -110,6 +120,10 @@ def rand_tier(rng, name="d", hi=5.0, nmax=7, pkind=0.25, labels=None, src=None, 
         lo, top = 0.0, hi
     else:
         lo, top = gen.span_for(rng, ents, hi, kind)
+    if neg and rng.random() < neg:
+        k = rng.choice([0.5, 2.0, 2.5, 7.0])
+        ents = [tuple(x - k for x in e[:-1]) + (e[-1],) for e in ents]
+        lo, top = lo - k, top - k
     return kind, ents, lo, top, make_tier(kind, name, ents, lo, top)
 
 
@@ -122,8 +136,14 @@ def rand_textgrid(rng, hi=5.0, ntiers=(1, 5), nmax=5, labels=None, variants=True
     r = rng.random() if variants else 1.0
     wider = r < 0.12  # the textgrid is wider than every tier
     tg = Textgrid(0.0, hi + 1.0) if wider else Textgrid()
+    late = 0.22 <= r < 0.30  # the textgrid starts before every one of its tiers does
+    if late:
+        tg = Textgrid(0.0, hi + 0.5)
     for i in range(rng.randrange(*ntiers)):
         kind, ents, lo, top, t = rand_tier(rng, "t%d" % i, hi, nmax, 0.3, labels, src, full_span=True)
+        if late:
+            ents = [tuple(x + 0.5 for x in e[:-1]) + (e[-1],) for e in ents]
+            t = make_tier(kind, "t%d" % i, ents, 0.5, hi + 0.5)
         tg.addTier(t, reportingMode="silence")
         allents.extend((e[0], e[-2], "") for e in ents)
     if 0.12 <= r < 0.22:  # one tier narrower than the textgrid
